@@ -84,4 +84,4 @@ package node
 //@ for C02 C03
 //@ # an owner is taken away again only from a binding made in this very pass (the pod reports no IPv4 address: the half of a
 //@ # dual-stack pair whose IPv6 half could not be found); an address a running pod reports is never unbound here
-//@ guard store IP.PodID in assignIPFromLocalPool: value != "" || info.IPv4 == ""
+//@ guard store PodRequest.ipv4Ref in assignIPFromLocalPool: value != nil || target.ipv4Ref == nil || target.IPv4 == ""
